@@ -461,6 +461,9 @@ func switchOwner(c *Ctx, id string) {
 					return
 				}
 				hit := cc.StaticCallee() == m
+				if w.forEachApplication(cc) == "Observer."+sw.method {
+					hit = true // the method expression handed to an iteration helper: called on every observer here
+				}
 				if cc.IsInvoke() && cc.Method.Name() == sw.method && types.Implements(types.NewPointer(oi.typ), ifaceOf(cc.Value.Type())) && strings.HasSuffix(types.TypeString(cc.Value.Type(), nil), "Observer") {
 					hit = true
 				}
